@@ -33,6 +33,8 @@ def shards(tier, seed, scale=1.0):
     out = []
     for s in range(16):
         out.append({'name': 'sym-%d' % s, 'kind': 'sym', 'seed': seed * 1000 + s, 'n': max(10, int(n * scale))})
+    for s in range(8):
+        out.append({'name': 'two-%d' % s, 'kind': 'two', 'seed': seed * 1000 + 200 + s, 'n': max(10, int(n * scale / 2))})
     out.append({'name': 'wcmatch', 'kind': 'wcmatch', 'seed': seed})
     return out
 
@@ -40,6 +42,8 @@ def shards(tier, seed, scale=1.0):
 def run_shard(desc):
     if desc['kind'] == 'sym':
         return run_sym(desc)
+    if desc['kind'] == 'two':
+        return run_two(desc)
     return run_wcmatch(desc)
 
 
@@ -247,6 +251,40 @@ def run_sym(desc):
             if out.stats['cases'] % 43 == 1:
                 out.sample({'tree': [e[1] + ('->' + e[2] if e[0] == 'l' else '/' if e[0] == 'd' else '') for e in spec],
                             'pattern': A.render_path(pp), 'cfg': cfg, 'results': len(res) if res else 0})
+    test()
+    return out
+
+
+def run_two(desc):
+    """Two globstars of possibly different kinds in one pattern, separated by ordinary segments (`**/d/***/f`): the rule of each
+    one applies to its own span only, whatever search ran in between."""
+    from hypothesis import given, strategies as st, seed
+    out = Outcome()
+    armed = desc['armed']
+    trees = st.sampled_from(LINKY + [T.CATALOGUE[13], T.CATALOGUE[13], T.CATALOGUE[9], T.CATALOGUE[2], T.CATALOGUE[6]])
+
+    def pats(spec):
+        names = sorted({os.path.basename(e[1]) for e in spec})
+        lit = st.sampled_from(names).map(A.lits)
+        mid = st.one_of(lit, lit, st.just((A.STAR,)), st.just((A.ANY, A.STAR)))
+        gs = st.sampled_from([A.GS, A.GSL])
+        return st.tuples(st.just(spec), st.tuples(gs, mid, gs, st.one_of(st.none(), mid), st.booleans()).map(
+            lambda t: A.PathPat(False, tuple(x for x in (t[0], t[1], t[2], t[3]) if x is not None), t[4] and False, 1)))
+
+    @seed(desc['seed'])
+    @util.hyp_settings(desc['n'], shrink=False)
+    @given(trees.flatmap(pats), st.lists(st.sampled_from(['dot', 'follow', 'globstar']), max_size=2, unique=True))
+    def test(sp, extra):
+        spec, pp = sp
+        cfg = {k: True for k in extra}
+        cfg['globstarlong'] = True
+        with FC.built_tree(spec, follow_safe=FC.follows_links(cfg)) as (root, removed):
+            out.stats['two_cases'] += 1
+            res = check_case(root, spec, pp, cfg, out, armed)
+            out.nontrivial((tuple(map(tuple, spec)), A.render_path(pp), tuple(sorted(cfg))))
+            if out.stats['two_cases'] % 43 == 1:
+                out.sample({'tree': [e[1] + ('->' + e[2] if e[0] == 'l' else '/' if e[0] == 'd' else '') for e in spec],
+                            'pattern': A.render_path(pp), 'cfg': cfg, 'results': len(res) if res else 0, 'stream': 'two'})
     test()
     return out
 
